@@ -844,6 +844,58 @@ example : True := by
         | ker u => exact cauchy_hasDerivAt one_pos (normSq_nonneg _ _))
   trivial
 
+/-- **One optimiser step with ANY consistent corrector choice** (pass 7; generalises `step_direction_is_total_loss_gradient` from the
+optimiser's own FastTriggs to user-supplied correctors, FastTriggs *or Triggs*, and to the kernel-free case): dense, unweighted path.
+If for every residual tensor `k` the corrector that `step` applies (`corrector[0] if len == 1 else corrector[k]`) is
+FastTriggs or Triggs **of the kernel that `RobustModel.loss` applies to that tensor** — or is `Trivial` while that kernel has slope 1
+(the no-kernel case) — then the stacked `J'ᵀR'` handed to the linear solver is exactly half the derivative of the reported loss,
+for any number of residual tensors, batch sizes and residual dimensions, any sign of the kernels' curvature. -/
+theorem step_direction_consistent {κ γ : Type} (sem : CSel κ γ → CorrSem ℝ) (ρ ρ1 ρ2 : KSel κ → ℝ → ℝ)
+    (ks : List (KSel κ)) (cs : List (CSel κ γ)) (nres : Nat)
+    (hsel : ∀ k < nres, ∃ c cc, lossKernel ks nres k = some c ∧ stepCorrector cs k = some cc ∧
+      ((∃ tr, sem cc = some (tr, ρ1 c, ρ2 c)) ∨ (sem cc = none ∧ ∀ x, ρ1 c x = 1)))
+    (hpos : ∀ c x, 0 ≤ x → 0 < ρ1 c x)
+    (dims : Nat → Nat × Nat) (r j : Nat → Nat → Nat → ℝ → ℝ) (t : ℝ)
+    (hr : ∀ k < nres, ∀ i < (dims k).1, ∀ a < (dims k).2, HasDerivAt (r k i a) (j k i a t) t)
+    (hρ : ∀ k < nres, ∀ c, ∀ i < (dims k).1,
+      HasDerivAt (ρ c) (ρ1 c (normSq (dims k).2 fun a => r k i a t)) (normSq (dims k).2 fun a => r k i a t)) :
+    HasDerivAt (fun s => lossTotal ρ ks nres (fun k => ((dims k).1, (dims k).2, fun i a => r k i a s)))
+      (2 * stepJtR sem cs nres (fun k => ((dims k).1, (dims k).2, (fun i a => r k i a t), fun i a _ => j k i a t)) 0) t := by
+  have h := total_loss_hasDerivAt ρ ρ1 ks nres dims r j t hr (fun k hk' c _ i hi => hρ k hk' c i hi)
+  refine h.congr_deriv ?_
+  congr 1
+  unfold stepJtR
+  simp only [sumN_eq_sum]
+  refine sum_congr rfl fun k hk' => ?_
+  obtain ⟨c, cc, hl, hs, hsem⟩ := hsel k (mem_range.mp hk')
+  rw [hl, hs]
+  simp only []
+  rcases hsem with ⟨tr, hsm⟩ | ⟨hsm, hone⟩
+  · rw [hsm]
+    cases tr with
+    | false =>
+      simp only [applyCorr]
+      rw [fastTriggs_grad (dims k).1 (dims k).2 (fun i a => r k i a t) (fun i a _ => j k i a t) (ρ1 c) (fun x hx => (hpos c x hx).le) 0]
+    | true =>
+      simp only [applyCorr]
+      rw [triggs_grad (dims k).1 (dims k).2 (fun i a => r k i a t) (fun i a _ => j k i a t) (ρ1 c) (ρ2 c) (hpos c) 0]
+  · rw [hsm]
+    simp only [applyCorr]
+    unfold JtR
+    simp only [sumN_eq_sum, hone, one_mul]
+
+/-- the selection hypothesis is what the optimisers produce when the user passes `corrector=Triggs(k)` together with `kernel=k`
+(one kernel, one corrector, any number of residual tensors): non-vacuity of `hsel` for a user-supplied Triggs -/
+example (nres k : Nat) (hk : k < nres) :
+    ∃ c cc, lossKernel (robustKernels (Arg.one (7 : Nat))) nres k = some c ∧
+      stepCorrector (correctors (Arg.one (7 : Nat)) (Arg.one (3 : Nat))) k = some cc ∧
+      ((∃ tr, (fun (x : CSel Nat Nat) => match x with
+          | .user _ => (some (true, cauchyD1 1, cauchyD2 1) : CorrSem ℝ)
+          | _ => none) cc = some (tr, cauchyD1 1, cauchyD2 1)) ∨ False) := by
+  refine ⟨KSel.ker 7, CSel.user 3, ?_, ?_, Or.inl ⟨true, rfl⟩⟩
+  · unfold lossKernel robustKernels kernelList; simp [hk]
+  · unfold stepCorrector correctors userCorrectors; simp
+
 /-! ### the `weight=` branch (outside C09's quantifier; modelled for honesty about the scope of the theorem above) -/
 /-- **The `weight=` branch (outside C09's quantifier), FastTriggs**: `J'ᵀ W R' = Σ_i ρ'(‖R_i‖²) · J_iᵀ W_i R_i` for every per-item
 weight matrix. Note what this is the gradient of: *not* of the reported loss `Σρ(‖R_i‖²)` (which ignores `W`) and not of
